@@ -249,6 +249,41 @@ func ErrNilEdges(call *ssa.Call) (edges map[[2]int]bool, tail bool, handled bool
 	return edges, tail, handled
 }
 
+// ErrMergedAndTested recognises the shared error check: `if c { err = a() } else { err = b() }; if
+// err != nil { return err }`. The call's error flows into a phi that is tested against nil by the
+// If that ends the phi's own block; on a path through the call the test's nil edge is taken only
+// when the call succeeded, so the call itself can count as a passed via.
+func ErrMergedAndTested(call *ssa.Call) bool {
+	ev := ErrResult(call)
+	if ev == nil || ev.Referrers() == nil {
+		return false
+	}
+	for _, r := range *ev.Referrers() {
+		ph, ok := r.(*ssa.Phi)
+		if !ok || ph.Referrers() == nil {
+			continue
+		}
+		for _, pr := range *ph.Referrers() {
+			switch x := pr.(type) {
+			case *ssa.BinOp:
+				if _, _, isNil := NilTest(x); !isNil || x.Referrers() == nil {
+					continue
+				}
+				for _, rr := range *x.Referrers() {
+					if ifi, isIf := rr.(*ssa.If); isIf && ifi.Block() == ph.Block() {
+						return true
+					}
+				}
+			case *ssa.Return:
+				if x.Block() == ph.Block() {
+					return true // `return err` of the merged value: the caller sees the failure
+				}
+			}
+		}
+	}
+	return false
+}
+
 // CheckedVia builds Via/ViaEdge/Target adapters for "the call matched by pred happened and its
 // error result was nil": the via is satisfied on the err==nil edge after the call, or when the
 // call's error value is what the function returns.
@@ -281,6 +316,10 @@ func NewCheckedVia(fn *ssa.Function, pred func(in ssa.Instruction, cc *ssa.CallC
 		}
 		e, tail, handled := ErrNilEdges(call)
 		if !handled {
+			if ErrMergedAndTested(call) {
+				cv.plain[in] = true
+				return
+			}
 			cv.Unhandled = append(cv.Unhandled, in)
 			return
 		}
